@@ -543,7 +543,14 @@ def run_c03(prop, tier, seed):
         prop, flow_cov.get('programs', 0), flow_cov.get('bytecode_paths', 0), flow_cov.get('queries', 0), flow_cov.get('unsat', 0), flow_cov.get('sat', 0),
         flow_cov.get('sat_confirmed_natively', 0), flow_cov.get('native_validation_renders', 0), flow_cov.get('native_validation_mismatches', 0)))
     log('[%s] engine B closures: %d programs, %d macro-body queries: unsat=%d sat=%d (confirmed natively %d), z3 %.1fs' % (prop, len(fam), nq, nun, nsat, nconf, z3s))
-    ev['coverage'] = dict(programs=len(fam), queries=nq, unsat=nun, sat=nsat, sat_confirmed_natively=nconf, z3_seconds=round(z3s, 1), prologues=prologue_cov, control_flow=flow_cov,
+    n_all_q = nq + prologue_cov.get('queries', 0) + flow_cov.get('queries', 0)
+    n_all_sat = nsat + prologue_cov.get('sat', 0) + flow_cov.get('sat', 0)
+    ev['coverage'] = dict(programs=len(fam) + prologue_cov.get('programs', 0) + flow_cov.get('programs', 0), disagreements_checked=n_all_sat,
+                          evaluations=n_all_q, distinct_nontrivial=n_all_q - n_all_sat + nconf + prologue_cov.get('sat_confirmed_natively', 0) + flow_cov.get('sat_confirmed_natively', 0),
+                          rule='one evaluation = one z3 query on the instruction stream the real compiler emitted for one family program (macro body / prologue / control-flow program), '
+                               'all branch outcomes (and iterable lengths 0..2) symbolic; non-trivial = decided unsat, or sat and confirmed on the real engine; '
+                               'disagreements_checked = sat answers replayed natively',
+                          macro_programs=len(fam), queries=nq, unsat=nun, sat=nsat, sat_confirmed_natively=nconf, z3_seconds=round(z3s, 1), prologues=prologue_cov, control_flow=flow_cov,
                           family='macro family: %d prefixes x %d signatures x %d bodies + call blocks (%d signatures x %d bodies); every branch outcome symbolic, loops unrolled %d' % (
                               len(G.MACRO_PREFIX), len(G.MACRO_SIGS), len(G.MACRO_BODIES), len(G.CALLER_SIGS), len(G.CALLER_BODIES), unroll),
                           samples=samples, wall_s=round(time.time() - t0, 1))
